@@ -1168,6 +1168,14 @@ func registerLibModels() {
 	m["math.RoundToEven"] = f1(func(x *Term) *Term { return FPRound("RNE", x) })
 	m["math.Round"] = f1(func(x *Term) *Term { return FPRound("RNA", x) })
 	m["math.Abs"] = f1(FPAbs)
+	m["math.Copysign"] = func(c *Ctx, fn *ssa.Function, a []Value) Value {
+		f, sign := a[0].(*Term), a[1].(*Term)
+		if f.IsConst() && sign.IsConst() {
+			return FPConst(math.Copysign(f.F, sign.F))
+		}
+		// (the sign bit of a NaN sign operand is outside the model: SMT-LIB has one NaN)
+		return Ite(FPIsNeg(sign), FPNeg(FPAbs(f)), FPAbs(f))
+	}
 	m["strings.Clone"] = func(c *Ctx, fn *ssa.Function, a []Value) Value { return a[0] }
 	m["internal/stringslite.Clone"] = m["strings.Clone"]
 	m["math.Hypot"] = func(c *Ctx, fn *ssa.Function, a []Value) Value {
@@ -1266,6 +1274,30 @@ func registerLibModels() {
 		x, y := a[0].(*Term), a[1].(*Term)
 		if x.IsConst() && y.IsConst() {
 			return FPConst(math.Mod(x.F, y.F))
+		}
+		if c.Ex.Havoc["math.Mod:contract"] {
+			// C fmod has no usable SMT counterpart (fp.rem: unknown at 60 s in z3 5.1 and cvc5 1.0), so the
+			// result is a fresh value constrained by fmod's contract only: NaN for a NaN/infinite x or a
+			// NaN/zero y; x itself for an infinite y; otherwise finite, |m| < |y|, |m| <= |x| and the sign of x.
+			// Everything proved under the contract holds for the real function.
+			c.Ex.noteModel("math.Mod: fresh result constrained by fmod's contract (sign of x, |m| < |y|, |m| <= |x|, special values)")
+			// the same operands give the same result (fmod is a function)
+			fkey := x.Key() + "|" + y.Key()
+			if c.fmodCache == nil {
+				c.fmodCache = map[string]*Term{}
+			}
+			if prev, ok := c.fmodCache[fkey]; ok {
+				return prev
+			}
+			m := Var(c.freshName("fmod"), SFP)
+			c.fmodCache[fkey] = m
+			special := Or(FPIsNaN(x), FPIsNaN(y), FPIsInf(x), FPEq(y, FPConst(0)))
+			yInf := And(Not(special), FPIsInf(y))
+			normal := And(Not(special), Not(FPIsInf(y)))
+			c.addPC(Or(Not(special), FPIsNaN(m)))
+			c.addPC(Or(Not(yInf), And(Not(FPIsNaN(m)), Eq(m, x))))
+			c.addPC(Or(Not(normal), And(Not(FPIsNaN(m)), Not(FPIsInf(m)), FPLt(FPAbs(m), FPAbs(y)), FPLe(FPAbs(m), FPAbs(x)), Eq(FPIsNeg(m), FPIsNeg(x)))))
+			return m
 		}
 		if c.Ex.Havoc["math.Mod"] {
 			c.Ex.noteModel("havoc:math.Mod (any float64 result)")
